@@ -60,6 +60,18 @@ def scripts_for(rnd, pairs, others):
             out.append((sv, bytes([OP_CHECKSIG]), [s, k], kind + ":checksig"))
             out.append((sv, bytes([OP_CHECKSIGVERIFY, 0x51]), [s, k], kind + ":checksigverify"))
         out.append((3, bytes([OP_CHECKSIGADD]), [s, b"\x02", k], kind + ":checksigadd"))
+    # the same (signature, key) offered twice in one session: the second evaluation must answer as the first did
+    OP_DROP = 0x75
+    for kind in ("listed", "wrong-sig", "wrong-key", "crossed", "unlisted"):
+        s, k = pick(kind)
+        for sv in (0, 1, 3):
+            if len(k) > 75 or len(s) > 520: continue
+            twice = R.push(k) + bytes([OP_CHECKSIG, OP_DROP]) + R.push(k) + bytes([OP_CHECKSIG])
+            out.append((sv, twice, [s, s], kind + ":checksig-twice"))
+        if len(k) <= 75:
+            out.append((3, bytes([0x00]) + R.push(k) + bytes([OP_CHECKSIGADD, OP_DROP, 0x00]) + R.push(k) + bytes([OP_CHECKSIGADD]), [s, s], kind + ":checksigadd-twice"))
+            st = [b"", s, b"", s]
+            out.append((0, bytes([0x51]) + R.push(k) + bytes([0x51, OP_CHECKMULTISIG, OP_DROP, 0x51]) + R.push(k) + bytes([0x51, OP_CHECKMULTISIG]), st, kind + ":multisig-twice"))
     # multisig: m-of-n with keys a mix of listed / unlisted; signatures in order for a subset
     for rep in range(6):
         n = rnd.choice((1, 2, 3, 4))
@@ -92,6 +104,8 @@ def run(ctx):
     for rep in range(60 if quick else 1500):
         npairs = rnd.choice((1, 1, 2, 3, 4))
         pairs = [(rand_sig(rnd), rand_key(rnd)) for _ in range(npairs)]
+        if rep % 5 == 0: pairs[0] = (pairs[0][0], b"")      # the empty byte string is a key like any other ("sig:0x")
+        if rep % 7 == 0: pairs[-1] = (b"", pairs[-1][1])     # ... and so is the empty signature
         shape = rnd.choice(("plain", "plain", "plain", "same-key-two-sigs", "same-pair-twice", "same-sig-two-keys", "trailing-comma"))
         if shape == "same-key-two-sigs" and pairs: pairs.append((rand_sig(rnd), pairs[0][1]))
         if shape == "same-pair-twice" and pairs: pairs.append(pairs[0])
@@ -124,7 +138,7 @@ def run(ctx):
     for l, m in zip(lines, meta):
         desc, dup, pairs, sv, fl, script, stack = m
         keys_listed = {k for _, k in pairs}
-        if not any(x in keys_listed for x in stack):
+        if not any(x in keys_listed for x in stack) and not any(R.push(k) in script for k in keys_listed):
             ml.append(l); mref.append(prun("", sv, fl, script, stack))
     a = ctx.harness_sharded(ml); b = ctx.harness_sharded(mref)
     strip = lambda x: re.sub(r"^map=\S* keys=\S* ", "", x)
